@@ -178,6 +178,7 @@ func c04RunSeq(in *c04In) Result {
 	}
 	var its []string
 	var obs []interface{}
+	sharedTrailer := false
 	for i, it := range items {
 		var sents []string
 		for _, s := range tr.items[i].sent {
@@ -191,6 +192,9 @@ func c04RunSeq(in *c04In) Result {
 			body, _ := io.ReadAll(res.Body)
 			cobs = cApp("Build_client_obs", cN(uint64(res.StatusCode)), c04Hdr(res.Header), c04Hdr(res.Trailer), c04S(string(body)))
 			o["client"] = map[string]interface{}{"status": res.StatusCode, "header": res.Header, "trailer": res.Trailer, "body": string(body)}
+			if c04TrailerSharesHeader(&c04In{RAnn: it.RAnn, RTrailers: it.RTrailers}, res.Header) {
+				sharedTrailer = true
+			}
 		}
 		obs = append(obs, o)
 		its = append(its, cApp("Build_seqitem", qterms[i], c04S(it.Body), cBool(it.Chunked), c04Hdr(pres[i]),
@@ -202,7 +206,11 @@ func c04RunSeq(in *c04In) Result {
 	if sq.Par {
 		mode = "concurrent"
 	}
-	return Result{Term: term, Obs: obs, Sig: "seq:" + mode, Direct: direct,
+	sig := "seq:" + mode
+	if sharedTrailer {
+		sig = c04SigSharedTrailer // an item of the sequence is in the class of F-C04-7
+	}
+	return Result{Term: term, Obs: obs, Sig: sig, Direct: direct,
 		Nontrivial: len(items) >= 2 && c04HasPlaceholder(in.Dirs), Class: fmt.Sprintf("seq:%s:n=%d", mode, len(items))}
 }
 
